@@ -146,16 +146,38 @@ def _resolve(ops, ds):
     return out
 
 
-def _random_history(rng, ds, n):
+def _narrow_op(rng, ns, dt=None):
+    """A save of an array of a narrow integer dtype (values inside its range): afterwards spike_clusters.npy HAS that
+    dtype on disk, whatever it had before."""
+    dt = dt or rng.choice(sorted(T.NARROW))
+    lo, hi = T.NARROW[dt]
+    top = rng.choice([4, 4, hi])
+    return ['clusters', [rng.choice([0, 1, rng.randint(0, 4), top]) for _ in range(ns)], dt]
+
+
+def _random_history(rng, ds, n, wide=False):
+    """wide (stage 6): also draws cluster ids at / beyond the limits of the narrow integer dtypes, saves of narrow-dtype
+    arrays, field names next to the excluded `info` and foreign files named next to cluster_info.*"""
     ns = ds['sem']['n_spikes']
     ops = []
     # fields owned by foreign files vs by save_metadata must stay disjoint (the reading); one exception below
     foreign_fields = {'cluster_extra.tsv': ['depth', 'label'], 'labels.csv': ['ks_label'], 'junk.tsv': ['zz'],
                       'notes.csv': ['remark', 'n2'], 'cluster_info.tsv': ['group', 'depth', 'n_spikes'],
                       'cluster_info.csv': ['quality']}
+    fields, fnames = T.FIELDS, FOREIGN_NAMES
+    if wide:
+        foreign_fields.update(T.NEAR_FOREIGN)
+        fields = T.FIELDS + T.NEAR_FIELDS + T.NEAR_FIELDS
+        fnames = FOREIGN_NAMES + sorted(T.NEAR_FOREIGN) + sorted(T.NEAR_FOREIGN)
     for _ in range(n):
         k = rng.random()
-        if k < 0.14:
+        if wide and k < 0.14 and rng.random() < 0.6:
+            r = rng.random()
+            if r < 0.4:
+                ops.append(_narrow_op(rng, ns))
+            else:
+                ops.append(['clusters', T.rand_clusters(rng, ns, 'edge'), rng.choice(['int64', 'int64', 'int32', 'uint32', 'inplace'])])
+        elif k < 0.14:
             kind = None
             earlier = [o for o in ops if o[0] == 'clusters']
             r = rng.random()
@@ -172,7 +194,7 @@ def _random_history(rng, ds, n):
                 ops.append(['clusters', T.rand_clusters(rng, ns, kind),
                             rng.choice(['int32', 'int64', 'uint32', 'uint16x', 'inplace'])])
         elif k < 0.38:
-            f = rng.choice(T.FIELDS + (['info'] if rng.random() < 0.05 else []))
+            f = rng.choice(fields + (['info'] if rng.random() < 0.05 else []))
             strings = T.WORDS + ([''] if rng.random() < 0.15 else [])
             earlier = [o for o in ops if o[0] == 'meta']
             r = rng.random()
@@ -187,15 +209,15 @@ def _random_history(rng, ds, n):
             else:
                 ops.append(_meta_op(rng, f, strings=strings))
         elif k < 0.52:
-            name = rng.choice(FOREIGN_NAMES)
+            name = rng.choice(fnames)
             ops.append(_foreign_valid(rng, name, foreign_fields[name]))
         elif k < 0.64:
-            name = rng.choice(FOREIGN_NAMES + ['adir.tsv', 'bdir.csv'])
+            name = rng.choice(fnames + ['adir.tsv', 'bdir.csv'])
             kind = 'dir' if name in ('adir.tsv', 'bdir.csv') else rng.choice([x for x in T.MALFORMED_KINDS if x != 'dir'])
             ops.append(['foreign', name, T.malformed(rng, kind, foreign_fields.get(name, ['zz']))])
         elif k < 0.68:
             # a foreign write over a file owned by save_metadata (its own field only)
-            f = rng.choice(T.FIELDS)
+            f = rng.choice(fields)
             ops.append(_foreign_valid(rng, 'cluster_%s.tsv' % f, [f]))
         elif k < 0.78:
             ops.append(['subset', rng.choice([1, 2, 3, 50]), rng.choice([None, 2, 16])])
@@ -308,6 +330,31 @@ def generate(tier, rng):
         [g1, ['reload'], ['meta', 'group', [[0, None], [1, None], [2, None]], 'py'], ['reload']],
         [g1, g2, copy.deepcopy(g1), ['meta', 'quality', [[0, ['s', 'good']], [1, ['s', 'mua']]], 'py'], ['reload']],
     ]
+    # stage 6 (fifth seeding round) ---------------------------------------------------------------------------------
+    # field names / foreign file names NEXT TO the excluded stem cluster_info (C10-m12: startswith instead of ==)
+    def txt(name, header, rows):
+        d = ',' if name.endswith('.csv') else '\t'
+        return ['foreign', name, {'kind': 'text', 'text': ''.join(d.join(r) + '\n' for r in [header] + rows)}]
+    corpus += [
+        [['meta', 'quality', [[0, ['s', 'good']], [1, ['s', 'mua']]], 'py'], ['meta', 'info_score', [[0, ['i', 3]], [1, ['i', 7]]], 'py'],
+         ['meta', 'information', [[0, ['f', (0.25).hex()]], [2, ['f', (1.5).hex()]]], 'np'],
+         txt('cluster_information_extra.csv', ['cluster_id', 'bits'], [['0', '12'], ['1', '15']]),
+         txt('cluster_info.tsv', ['cluster_id', 'n_spikes'], [['0', '20'], ['1', '20']]), ['close'], ['reload']],
+        [txt('cluster_info_backup.tsv', ['cluster_id', 'bk_depth'], [['0', '1.5'], ['3', 'deep']]),
+         txt('cluster_info.old.tsv', ['cluster_id', 'oldv'], [['2', 'x']]), txt('cluster_inf.csv', ['cluster_id', 'infv'], [['1', '4']]),
+         txt('xcluster_info.tsv', ['cluster_id', 'xv'], [['1', 'y']]), txt('cluster_info.csv', ['cluster_id', 'quality'], [['1', 'hidden']]),
+         ['reload'], ['meta', 'cluster_info', [[0, ['s', 'a_1']]], 'py'], ['meta', 'Info', [[0, ['i', 1]]], 'py'],
+         ['meta', 'inf', [[2, ['s', 'good']]], 'own'], ['meta', 'info', [[0, ['s', 'x']]], 'py'], ['reload']],
+        [['meta', 'group', [[0, ['s', 'good']]], 'py'], ['meta', 'group2', [[0, ['s', 'mua']]], 'py'],
+         ['meta', 'groupinfo', [[1, ['i', 2]]], 'py'], ['meta', 'myinfo', [[1, ['f', (2.5).hex()]]], 'py'], ['reload'],
+         ['meta', 'group2', [], 'py'], ['meta', 'info2', [[4, ['s', 'bad']]], 'np'], ['close'], ['reload']],
+        # the dtype spike_clusters.npy has on disk (left by an earlier save of a narrow array) and ids beyond it (C10-m13)
+        [['clusters', [1, 0, 4], 'uint16'], ['reload'], ['clusters', [65535, 65536, 70000], 'int64'], ['close'], ['reload']],
+        [['clusters', [1, 255, 0], 'uint8'], ['clusters', [255, 256, 300], 'int32'], ['reload'],
+         ['clusters', [3, 127, 0], 'int8'], ['close'], ['reload'], ['clusters', [128, 127, 32768], 'inplace'], ['reload']],
+        [['clusters', [2, 32767, 0], 'int16'], ['reload'], ['clusters', [32768, 65536, 32767], 'uint32'], ['reload'],
+         ['clusters', [7, 65535, 0], '>u2'], ['clusters', [131071, 65537, 1], 'int64'], ['reload']],
+    ]
     for ds in pool[:3]:
         for h in corpus:
             h = copy.deepcopy(h)
@@ -344,6 +391,32 @@ def generate(tier, rng):
                   [['subset', 1, 2], ['close'], ['reload'], ['subset', 50, None], ['reload']],
                   [copy.deepcopy(g1), ['subset', 3, 16], ['reload'], ['subset', 2, 1], ['reload']]):
             cases.append(_case(dsn, copy.deepcopy(h)))
+    # stage 6: datasets whose id files have the narrow / unusual dtypes a sorter may write (own stream: the pool keeps its
+    # payloads): uint16 spike_templates.npy and no cluster file -- the first load byte-copies it to spike_clusters.npy --
+    # or a cluster file of any integer dtype and byte order
+    rw = random.Random(1313)
+    wide_pool = []
+    for kw in (dict(names='ks', id_dtype='uint16', write_clusters=False, curated=False),
+               dict(names='alf', label='probe00', id_dtype='uint16', write_clusters=True),
+               dict(names='ks', id_dtype='int32', write_clusters=True, clu_dtype='uint8'),
+               dict(names='ks', id_dtype='uint32', curated=True, clu_dtype='int16'),
+               dict(names='alf', label='', id_dtype='int64', write_clusters=True, clu_dtype='>u2'),
+               dict(names='ks', id_dtype='uint16', curated=True, clu_dtype='int8'),
+               dict(names='alf', id_dtype='int32', write_clusters=True, clu_dtype='>i4'),
+               dict(names='ks', id_dtype='uint16', write_clusters=True, clu_dtype='uint64'))[:8 if tier != 'quick' else 6]:
+        wide_pool.append(T.make_dataset(rw, raw=rw.random() < 0.5, **kw))
+    for dsw in wide_pool:
+        nw = dsw['sem']['n_spikes']
+        small = [rw.randint(0, 4) for _ in range(nw)]
+        edge = ([65535, 65536, 70000, 256, 128, 32768, 300] * nw)[:nw]
+        for h in ([['clusters', edge, 'int64'], ['reload']],
+                  [['clusters', small, 'int64'], ['close'], ['reload'], ['clusters', edge, 'int64'], ['close'], ['reload']],
+                  [['clusters', edge, 'inplace'], ['reload'], ['clusters_loaded', 'int64'], ['clusters', edge[::-1], 'int32'], ['reload']],
+                  [['clusters_loaded', 'int64'], ['reload'], ['clusters', T.rand_clusters(rw, nw, 'edge'), 'uint32'], ['reload']]):
+            cases.append(_case(dsw, _resolve(copy.deepcopy(h), dsw)))
+    for _ in range({'quick': 90, 'thorough': 1500, 'search': 600}[tier]):
+        dsw = rw.choice(wide_pool + pool[:3])
+        cases.append(_case(dsw, _random_history(rw, dsw, rw.randint(2, 7 if tier == 'quick' else 9), wide=True)))
     # a dataset that already has metadata files
     init = [['cluster_group.tsv', {'kind': 'text', 'text': 'cluster_id\tgroup\n0\tgood\n2\tmua\n'}],
             ['cluster_info.tsv', {'kind': 'text', 'text': 'cluster_id\tgroup\tdepth\n0\tbad\t10.5\n'}],
@@ -730,8 +803,21 @@ def dist(case, obs):
     out = ['len=%d' % len(ops), 'names=%s%s' % (ds['names'], '+label' if ds.get('label') else ''),
            'raw=%s' % (ds['raw']['dtype'] + 'x%d' % len(ds['raw']['sizes']) if ds.get('raw') else 'none'),
            'reloads=%d' % sum(1 for o in ops if o[0] == 'reload')]
+    for name, spec in ds.get('files', {}).items():
+        if 'clusters' in name or 'templates.npy' in name and 'spike' in name:
+            out.append('%s_file_dtype=%s' % ('clusters' if 'clusters' in name else 'templates', spec['dtype']))
+    if not any('clusters' in name for name in ds.get('files', {})):
+        out.append('clusters_file=copied_at_first_load')
     for o in ops:
         out.append('op=' + o[0])
+        if o[0] == 'clusters':
+            out.append('saved_array_dtype=' + o[2])
+            if o[1] and max(o[1]) > 127:
+                out.append('max_id>=' + str(max(b for b in (128, 256, 32768, 65536) if b <= max(o[1]))))
+        if o[0] == 'meta' and o[1] not in T.FIELDS:
+            out.append('field_near_info=' + o[1])
+        if o[0] == 'foreign' and o[1] in T.NEAR_FOREIGN:
+            out.append('foreign_near_cluster_info=' + o[1])
         if o[0] == 'foreign':
             p = T.parse_file(o[2])
             out.append('foreign=' + (o[2]['kind'] if p[0] == 'raise' and o[2]['kind'] != 'text' else
